@@ -38,6 +38,8 @@ var ambientConfigs = []string{
 	"[log]\n\tdecorate = full\n\tabbrevCommit = true\n[diff]\n\talgorithm = histogram\n",
 	"[diff \"simdriver\"]\n\tbinary = true\n",
 	"[diff]\n\tcontext = 0\n\tinterHunkContext = 5\n",
+	"[log]\n\tshowRoot = false\n",
+	"[log]\n\tshowRoot = false\n\tdate = relative\n[diff]\n\tindentHeuristic = false\n\tcolorMoved = zebra\n",
 }
 
 // diffTreeBlobs lists blob ids on one side of `git diff-tree -r --raw a b`.
